@@ -94,19 +94,20 @@ def ev(n, env):
     return (not v) if neg else v
 
 
-def atoms_of(f, body=None):
+def atoms_of(f, body=None, prep=None):
     out = []
     g = cfg.FnCFG(f)
+    prep = prep or (lambda e: e)
     for b in g.blocks.values():
         if len(b["s"]) == 2 and b.get("cond") is not None and b.get("termk") != "SwitchStmt":
             c = g.idx.get(b["cond"])
             if c is not None:
-                leaves(c, out)
+                leaves(prep(c), out)
     for n in facts.fn_nodes(f):
         if n["k"] == "ReturnStmt" and n.get("c"):
             t = facts.ty(f, n["c"][0])
             if t and t.get("k") == "bool":
-                leaves(n["c"][0], out)
+                leaves(prep(n["c"][0]), out)
     seen = []
     for k in out:
         if k not in seen:
@@ -114,11 +115,13 @@ def atoms_of(f, body=None):
     return seen
 
 
-def truth_table(f, atoms=None, classify=None, max_atoms=10, effects=None):
+def truth_table(f, atoms=None, classify=None, max_atoms=10, effects=None, prep=None):
     """{assignment tuple: result}; result = classify(return node, env) or the boolean value returned.
-    Raises AnalysisBroken when the function is not a pure predicate of its atoms."""
+    Raises AnalysisBroken when the function is not a pure predicate of its atoms.
+    prep(expr) -> expr is applied to every condition / returned expression first (see reader())."""
     g = cfg.FnCFG(f)
-    atoms = atoms or atoms_of(f)
+    prep = prep or (lambda e: e)
+    atoms = atoms or atoms_of(f, prep=prep)
     if len(atoms) > max_atoms:
         raise facts.AnalysisBroken("%s tests %d conditions: too many for a truth table" % (f["id"], len(atoms)))
     table = {}
@@ -150,14 +153,14 @@ def truth_table(f, atoms=None, classify=None, max_atoms=10, effects=None):
                 if classify is not None:
                     res = classify(ret, env)
                 else:
-                    res = ev(ret["c"][0], env) if ret.get("c") else None
+                    res = ev(prep(ret["c"][0]), env) if ret.get("c") else None
                 break
             if b in g.throws:
                 res = "<throw>"
                 break
             ss = [s for s in blk["s"]]
             if len(ss) == 2 and blk.get("cond") is not None and blk.get("termk") != "SwitchStmt":
-                c = g.idx.get(blk["cond"])
+                c = prep(g.idx.get(blk["cond"]))
                 try:
                     v = ev(c, env)
                 except KeyError as ke:
@@ -322,3 +325,73 @@ def compare(atoms, table, roles, want):
         if res != w:
             return False, "under %s it yields %s, the statement requires %s" % (dict(zip(atoms, vals)), res, w)
     return True, "%d rows agree" % len(table)
+
+
+# ---------------------------------------------------------------------------------------------- reading through names
+_HELPER = {}
+_NEXT = [200000000]
+
+
+def predicate_expr(db, callee):
+    """(function, expression tree) when `callee` is a file-local free predicate made only of if / return statements - the
+    boolean expression it computes (`if (c) return a; return b;` -> `c ? a : b`) - else None"""
+    key = (id(db), callee)
+    if key in _HELPER:
+        return _HELPER[key]
+    _HELPER[key] = None
+    h = db.fn(callee) if callee else None
+    if h is None or not h.get("body") or (facts.tyi(h, h.get("ret")) or {}).get("k") != "bool" or \
+            not (h.get("file") or "").startswith("src/") or h.get("rec") or facts._named_in_headers(db, h.get("name")):
+        return None        # only free functions private to a source file: an API predicate is an atom of its own
+
+    def conv(stmts):
+        stmts = [x for x in stmts if x is not None]
+        if not stmts:
+            return None
+        s0 = stmts[0]
+        if s0["k"] == "CompoundStmt":
+            return conv(list(s0.get("c", [])) + stmts[1:])
+        if s0["k"] == "ReturnStmt":
+            return s0["c"][0] if s0.get("c") else None
+        if s0["k"] == "IfStmt":
+            real = [x for x in s0["c"] if x is not None]
+            a = conv([real[1]] + stmts[1:])
+            b = conv(([real[2]] if len(real) > 2 else []) + stmts[1:])
+            if a is None or b is None:
+                return None
+            _NEXT[0] += 1
+            return {"id": _NEXT[0], "k": "ConditionalOperator", "c": [real[0], a, b], "l": s0.get("l")}
+        return None
+    e = conv([h["body"]])
+    if e is None:
+        return None
+    _HELPER[key] = (h, e)
+    return _HELPER[key]
+
+
+def reader(db, f):
+    """prep function for truth_table / expr_table: integer locals assigned once are replaced by their initialisers and
+    calls of library predicates by the boolean expression they compute (parameters -> arguments), so that the atoms are
+    the real tests, not the names a refactoring gave them"""
+    from . import cond as _cond
+
+    def prep(e, depth=0):
+        e = facts.inline_locals(f, e)
+
+        def go(n, d):
+            if not isinstance(n, dict):
+                return n
+            if n["k"] in ("CallExpr", "CXXMemberCallExpr") and n.get("callee") and not n.get("ext") and d < 3:
+                pe = predicate_expr(db, n["callee"])
+                if pe is not None and pe[0] is not f:
+                    try:
+                        return go(_cond.graft(pe[0], f, pe[1], n), d + 1)
+                    except KeyError:
+                        return n
+            if n.get("c"):
+                m = dict(n)
+                m["c"] = [go(c, d) for c in n["c"]]
+                return m
+            return n
+        return go(e, depth)
+    return prep
